@@ -30,10 +30,10 @@ def parse_a():
     p = "/tmp/vs/A-results.txt"
     if os.path.exists(p):
         for l in open(p):
-            m = re.match(r"SUMMARY tag=(c\d+)-OUT(2?) ", l)
+            m = re.match(r"SUMMARY tag=(c\d+)-OUT(\d?) ", l)
             if m:
                 kv = dict(re.findall(r"(\w+)=(\[[^\]]*\]|\S+)", l))
-                d["%s/%s" % (m.group(1).upper(), "2" if m.group(2) else "1")] = kv
+                d["%s/%s" % (m.group(1).upper(), m.group(2) or "1")] = kv
     return d
 def parse_b():
     d = {}
@@ -41,9 +41,9 @@ def parse_b():
     cur = None
     if os.path.exists(p):
         for l in open(p):
-            m = re.match(r"=== (C\d+) /tmp/mut/(c\d+)/OUT(2?)", l)
+            m = re.match(r"=== (C\d+) /tmp/mut/(c\d+)/OUT(\d?)", l)
             if m:
-                cur = ("%s/%s" % (m.group(2).upper(), "2" if m.group(3) else "1"), m.group(1)); d.setdefault(cur[0], []).append({"check": cur[1], "exit": None, "sigs": []})
+                cur = ("%s/%s" % (m.group(2).upper(), m.group(3) or "1"), m.group(1)); d.setdefault(cur[0], []).append({"check": cur[1], "exit": None, "sigs": []})
             elif cur and l.startswith("CHECK"):
                 d[cur[0]][-1]["exit"] = int(l.strip().split("exit=")[1])
             elif cur and l.strip().startswith("signature:"):
